@@ -174,3 +174,20 @@ PROPS["C02"] = {
     "trusted_base": ["cbmc/goto-cc/goto-instrument 6.11.0 (symbolic execution with constant t->type, MiniSat2)", "regex extraction of the type enum and of producers in C02/defs.py"],
     "assumptions": _C02_ASSUME,
 }
+
+# ---------------------------------------------------------------- family 2: line-type closure of strip_line_tokens_from_block
+import re as _re2
+_hdr = open(os.path.join(os.environ.get("VERIF_REPO", "/repo"), "src", "libMultiMarkdown.h")).read() + open(os.path.join(os.environ.get("VERIF_REPO", "/repo"), "src", "parser.h")).read()
+_ALL_LINES = sorted(set(_re2.findall(r"\bLINE_[A-Z0-9_]+\b", _hdr)))
+_CLOSURE_BLOCKS = ["BLOCK_PARA", "BLOCK_BLOCKQUOTE", "BLOCK_LIST_ITEM", "BLOCK_LIST_ITEM_TIGHT", "BLOCK_DEF_CITATION", "BLOCK_DEF_FOOTNOTE", "BLOCK_DEF_GLOSSARY",
+                   "BLOCK_DEF_LINK", "BLOCK_DEF_ABBREVIATION", "BLOCK_DEFINITION", "BLOCK_TERM", "BLOCK_H1", "BLOCK_H4", "BLOCK_SETEXT_1", "BLOCK_SETEXT_2", "BLOCK_HTML", "BLOCK_CODE_FENCED"]
+for _b in _CLOSURE_BLOCKS:
+    U("c02_closure_" + _b[6:].lower(), ["C02", "C15"], "h_closure", ["C02/closure.c"], ["mmd.c", "token.c", "char.c"] + (["writer.c"] if _b == "BLOCK_DEFINITION" else []), plain=True, lib=(), kind="bounded",
+      tier=("quick" if _b in ("BLOCK_PARA", "BLOCK_BLOCKQUOTE", "BLOCK_LIST_ITEM", "BLOCK_DEF_CITATION", "BLOCK_DEFINITION", "BLOCK_H1", "BLOCK_SETEXT_2") else "thorough"),
+      defines=["-DDISABLE_OBJECT_POOL", "-DBTYPE=" + _b, "-DALL_LINE_TYPES=" + ",".join(_ALL_LINES)],
+      bounds={"lines": "1..2", "inline tokens per line": "0..2 (+ optional indent token)", "line types": "every member of T, enumerated concretely (27 x 7 shapes)", "unwind": 45},
+      cbmc_flags=["--unwind", "45", "--unwinding-assertions", "--object-bits", "12"], timeout=600, cost=40,
+      functions=["strip_line_tokens_from_block"], callees={"token_*": "body (DISABLE_OBJECT_POOL)", "strip_leading_whitespace/parse_table_row_into_cells": "body"},
+      native=None, min_obligations=30,
+      assumptions=[NOFAIL, "T (line kinds a text-carrying block can contain) is transcribed from parser.y: chunk/nested_chunk/tail rules plus the %fallback chains onto LINE_CONTINUATION",
+                   "the writers' LINE_* arms (LINE_LIST_BULLETED, LINE_LIST_ENUMERATED, LINE_SETEXT_2, LINE_FENCE_BACKTICK_3..5) are hand-listed from html.c/latex.c/opendocument-content.c"])
